@@ -34,6 +34,9 @@ func (x *Exec) call(st *State, in ssa.Instruction, cc *ssa.CallCommon, res ssa.V
 			x.markSite(site)
 			for _, cl := range x.con.Asserts[site] {
 				env := x.newEnv(st, x.oldOf(st))
+				if in != nil {
+					env.atBlock = in.Block()
+				}
 				for i, a := range cc.Args {
 					env.names[fmt.Sprintf("arg%d", i)] = val{x.value(a), a.Type(), x.vc.sortOf(a.Type())}
 				}
